@@ -25,6 +25,13 @@ ASSUME = [
     'the driver spells out the four statements of dispenso::pipeline() to be able to project the gates\' words; '
     'runs with api=1 call dispenso::pipeline() itself (validated without projection)',
 ]
+# supplementary model runs (larger / liveness configurations) are not subject to the vacuity check: the main
+# configuration set of each check takes every action
+SUPP = ('Terminated', 'TaskSkip', 'DrOp', 'PlGenSubmit', 'PlWaitGen', 'FutexWait', 'FutexRet', 'PlWaitCts', 'DrRet', 'PlGenHasExc',
+        'DrGen', 'PlGenDone', 'FutexWake', 'PlSchIncOut', 'PlSchUnl', 'PlSchEnq', 'PlSchAcq', 'PlSchDeq', 'PlSchSubmit', 'PlSchRel',
+        'PlUnlHasExc', 'DrBody', 'PlCbDeq', 'PlCbSubmit', 'PlCbRel', 'PlCatch', 'PlGuardRel', 'PlDecOut', 'PlWtLoadOut',
+        'PlWtHasExc', 'PlWtDiscDeq', 'PlWtDiscDec', 'PlWtDeq', 'PlWtAcq', 'PlWtAcqUndo', 'PlWtAcqExc', 'PlWtAcqDec', 'PlWtSubmit',
+        'PlWuLoadOut', 'PlWuHasExc', 'PlWuDeq', 'TaskStart')
 INVS = 'GateSane AtMostOnce InputIsPredecessorsOutput AllDelivered SingleRuns LimitRespected RethrowsFirst NoLeak PoolClean'
 
 
@@ -128,11 +135,39 @@ def run_programs(ctx, exe, progs, n, seed, what, label, fix=1, maxsteps=30000, t
         if m:
             sites[m.group(1)] = sites.get(m.group(1), 0) + 1
     ctx.cov.setdefault('trace_sites', {})[label] = sites
+    ctx.cov.setdefault('max_inflight_observed', {})[label] = observed_overlap(whole)
     if os.path.getsize(whole):
         ctx.validate(SPEC, 'PipelineTrace.tla', 'PipelineTrace.cfg', whole, what + ' [' + label + ']',
                      executions=tot['completed'], label=label, timeout=timeout)
     cleanup()
     return whole, tot
+
+
+def observed_overlap(trace):
+    """coverage information only (the verdict is TLC's): for every stage limit, the largest number of bodies of one stage
+    that were really in flight together in the recorded executions (shows that the limits were reached, not just respected)"""
+    import json
+    best = {}
+    lim, infl = [], {}
+    for line in open(trace):
+        if '"Reset"' in line:
+            ev = json.loads(line)
+            lim, infl = ev['lim'], {}
+            continue
+        if '"begin"' not in line and '"end"' not in line and '"throw"' not in line:
+            continue
+        ev = json.loads(line)
+        for n in ev.get('r', []):
+            if not isinstance(n, list):
+                continue
+            if n[0] == 'begin':
+                g = n[2] // 10
+                infl[g] = infl.get(g, 0) + 1
+                key = 'limit %s' % (lim[g] if g < len(lim) else '?')
+                best[key] = max(best.get(key, 0), infl[g])
+            elif n[0] in ('end', 'throw'):
+                infl[n[2]] = infl.get(n[2], 0) - 1
+    return best
 
 
 def traces_only():
